@@ -55,7 +55,7 @@ def main() -> int:
     ck.cov["traces_validated_against_impl"] = len(traces)
     ck.cov["distinct_nontrivial"] = nontriv
     ck.cov["trace_events"] = sum(len(t["events"]) for t in traces)
-    ck.cov["rule"] = "histories of <= 3 operations over run(text, flag on|off) and evict(text), texts = a rich model, an edited model and near-identical variants (leading blank line, trailing blank lines, CRLF, trailing space) (TLC-enumerated: %d; all of length <= 2 and a seeded sample of length 3 replayed through main.main(argv), targets rotating over all eight); non-trivial = at least two operations with at least one cache-enabled run" % len(hists)
+    ck.cov["rule"] = "histories of <= 3 operations over run(text, flag on|off) and evict(text), texts = a rich model, an edited model and near-identical variants (leading blank line, trailing blank lines, trailing space) (TLC-enumerated: %d; all of length <= 2 and a seeded sample of length 3 replayed through main.main(argv), targets rotating over all eight); non-trivial = at least two operations with at least one cache-enabled run" % len(hists)
     ck.cov["samples"] = [cases[0], cases[len(cases) // 2]]
     ck.cov["exhaustive"] = False
     ck.assumptions += ["cache directory = <tempfile.gettempdir()>/aas-core-codegen-<version> (the documented location)", "in-process invocation of main.main with patched sys.argv stands for the CLI process"]
